@@ -340,6 +340,9 @@ func (c *Case) item(m *material, i int) (pacfmt.Item, error) {
 		if n == 0 {
 			n = pacfmt.SigLen(alg)
 		}
+		if n == 0 {
+			n = 20 // neither is a PAC checksum type (hmac-sha1-des3-kd under a des3 service key): room for its 20 octets
+		}
 		it = pacfmt.Item{Type: typ, Data: pacfmt.SignatureBuffer(decl, n, bf.RODC)}
 	case "gen:logon":
 		if bf.Gen == nil {
@@ -437,6 +440,9 @@ func build(c Case) (*built, error) {
 	}
 	if !c.Captured && srvDeclared != c.SrvAlg {
 		setWhy(b, "declared-type")
+	}
+	if !c.Captured && pacfmt.SigLen(c.SrvAlg) == 0 {
+		setWhy(b, "not-a-pac-signature-type") // e.g. hmac-sha1-des3-kd under a des3 service key
 	}
 	ssp, hasSrv := pacfmt.ValueSpan(b.pac, b.entries, pacfmt.TypeServerChecksum)
 	b.kdcValue, b.hasKDC = pacfmt.ValueSpan(b.pac, b.entries, pacfmt.TypeKDCChecksum)
@@ -853,7 +859,45 @@ func judge(c Case, b *built) (evid.Verdict, string) {
 	case outcome == "accept":
 		return evid.Fail("accept-invalid:"+b.why, "PAC accepted although it must not be (%s)\npac=%x key=%x", b.why, b.pac, b.key), outcome
 	}
+	// the same octets handed to a PACType value that has already processed another (valid) PAC: refusing is fine, but
+	// if they are accepted they must deserve it, and what is reported must be theirs, not the earlier PAC's
+	if m, err := materials(); err == nil && !c.Captured {
+		if o2, t2, e2 := observeReused(m.win2kRaw, m.win2kKey, 18, b.pac, b.key, b.etype); o2 == "accept" {
+			if !b.constr {
+				return evid.Fail("reused-pactype:accept-invalid:"+b.why, "PAC accepted by a PACType value that had processed another PAC before, although it must not be (%s)\npac=%x key=%x", b.why, b.pac, b.key), outcome
+			}
+			if sig, msg := attrs(t2, b.pac, b.entries); sig != "" {
+				return evid.Fail("reused-pactype:"+sig, "a PACType value that had processed another PAC before accepts this PAC but reports: %s", msg), outcome
+			}
+		} else if strings.HasPrefix(o2, "panic:") {
+			return evid.Fail("reused-pactype:"+o2, "a PACType value that had processed another PAC before panics on this one: %s", e2), outcome
+		}
+	}
 	return evid.Pass(), outcome
+}
+
+// observeReused processes a first PAC with one PACType value and then hands the second PAC to the same value.
+func observeReused(p1, key1 []byte, et1 int32, p2, key2 []byte, et2 int32) (outcome string, pt *pac.PACType, errText string) {
+	defer func() {
+		if r := recover(); r != nil {
+			outcome, pt = "panic:"+evid.PanicSite(string(debug.Stack())), nil
+			errText = fmt.Sprint(r)
+		}
+	}()
+	var t pac.PACType
+	if err := t.Unmarshal(append([]byte{}, p1...)); err != nil {
+		return "error:first-container", nil, err.Error()
+	}
+	if err := t.ProcessPACInfoBuffers(types.EncryptionKey{KeyType: et1, KeyValue: append([]byte{}, key1...)}, discard); err != nil {
+		return "error:first", nil, err.Error()
+	}
+	if err := t.Unmarshal(append([]byte{}, p2...)); err != nil {
+		return "error:container", nil, err.Error()
+	}
+	if err := t.ProcessPACInfoBuffers(types.EncryptionKey{KeyType: et2, KeyValue: append([]byte{}, key2...)}, discard); err != nil {
+		return "error:" + errClass(err.Error()), nil, err.Error()
+	}
+	return "accept", &t, ""
 }
 
 // ---------------------------------------------------------------------------------------------
